@@ -95,6 +95,12 @@ def run_case(case, extra):
         script = {}
         if place == "pass-output":
             d = {"StartAt": "P", "States": {"P": {"Type": "Pass", "Result": "a" * (n - 2), "End": True}}}
+        elif place == "task-reply" and shape != "string":
+            # the reply text as the worker sent it is what is measured: its re-serialisation is shorter (padded) or
+            # longer (compact); the state keeps nothing of it (ResultSelector), so only the reply check decides
+            d = {"StartAt": "T", "States": {"T": {"Type": "Task", "Resource": F + "big", "ResultSelector": {"kept": 1},
+                                                 "End": True}}}
+            script = {"big": [{"raw": text_of(n, shape)}]}
         elif place == "task-reply":
             d = {"StartAt": "T", "States": {"T": {"Type": "Task", "Resource": F + "big", "End": True}}}
             script = {"big": [{"raw": s_of(n)}]}
@@ -322,7 +328,7 @@ def main(argv):
         return 1 if same else 0
     tier = common.tier()
     cases = [(p, d) for p in PLACES for d in DELTAS] + [("definition-empty", 0), ("names", 0)]
-    cases += [("%s:%s" % (p, sh), d) for p in ("start-execution-input", "start-sync-execution-input", "callback-output")
+    cases += [("%s:%s" % (p, sh), d) for p in ("start-execution-input", "start-sync-execution-input", "callback-output", "task-reply")
               for sh in SHAPES for d in DELTAS]
     cases += [("first-state-after-compact-input:%s" % st, d) for st in ("Pass", "Choice", "Choice-default", "Wait",
                                                                         "Succeed", "Task", "Parallel", "Map")
@@ -338,7 +344,7 @@ def main(argv):
              "driven to StartExecution input, StartSyncExecution input, SendTaskSuccess output (then the task result), "
              "Pass output, task reply, Task output grown by ResultSelector, Parallel and Map output after the join (one "
              "character of separator slack accepted); definitions of 1048576-2..+2 characters and empty; names of length "
-             "0, 1, 80, 81 and one per forbidden character for state machines and executions; the three API inputs "
+             "0, 1, 80, 81 and one per forbidden character for state machines and executions; the three API inputs and the task reply "
              "also as texts whose re-serialisation is shorter (whitespace padded) or longer (compact separators) than what "
              "was sent; an input text accepted at the API whose re-serialisation is over the limit, met by a first state of every type (the execution has to end); a counting loop and a Task retried for ever, each driven past 25000 history events; accepted <=> size <= L with the documented error type / "
              "States.DataLimitExceeded otherwise; 'exhaustive' = the listed +-2 windows are enumerated completely",
